@@ -139,6 +139,20 @@ func (i *interpreter) yieldIdle(g *goroutine, why string) {
 	i.park(g, why, func() bool { return true })
 }
 
+// yieldToOther lets the next runnable goroutine (round robin by id) run
+// until it blocks, then the caller continues.
+func (i *interpreter) yieldToOther(g *goroutine) {
+	n := len(i.gs)
+	for k := 1; k < n; k++ {
+		o := i.gs[(g.id+k)%n]
+		if o != g && !o.idleOnly && o.runnable() {
+			i.forceNext = o
+			break
+		}
+	}
+	i.park(g, "yield", func() bool { return true })
+}
+
 func (g *goroutine) runnable() bool {
 	if g.done {
 		return false
